@@ -53,7 +53,8 @@ def check_case(case):
     if ref.reject or ref.function_variable_clash:
         res.tag('skipped:reject-class')
         return res
-    text, _ = G.render_program(prog, [])
+    # (the layout matters here: the normalised equation keeps the script's spacing around `=` and the operators)
+    text, _ = G.render_program(prog, G.Tape(case.get('tape'), kinds={'eq-space', 'op-space', 'index-pad', 'explicit0', 'paren-pad'}))
     parsed = attempt(fsic.parse_model, text)
     if not parsed.ok:
         res.tag('skipped:parse-rejected')
@@ -195,13 +196,16 @@ def strategy():
         'prog': G.programs(max_statements=3, max_leaves=6, named_periods=False, blocks=False, big_offsets=True, max_offset=3),
         'bases': st.lists(st.lists(st.sampled_from([1.0, 2.0, 0.5, 4.0, -1.5, 0.0, 3.0]), min_size=2, max_size=4),
                           min_size=1, max_size=3),
+        'tape': st.one_of(st.just([]), G.tapes(10)),
     })
 
 
 def gen_enumerated(max_nodes):
     def gen():
-        for prog in G.enumerate_programs(max_nodes):
+        for i, prog in enumerate(G.enumerate_programs(max_nodes)):
             yield {'prog': prog}
+            if i % 5 == 0:
+                yield {'prog': prog, 'tape': [1 + (i // 5) % 3] * 6}       # other spacings of the same program
     return gen
 
 
